@@ -45,9 +45,14 @@ let parse_case (toks : string list) : icase =
     | None -> None
     | Some n -> Some (rep n (fun i ->
         let (sc, ids) = split_ids (next ()) in
-        let acct = (match ids with [] -> n_of_int i | [a] -> a | _ -> failwith "case syntax: withdrawal identity") in
+        let two = n_of_int 2 in
+        let (acct, net) = (match ids with
+          | [] -> let p = n_of_int i in (p, N.modulo p two)
+          | [a] -> (a, N.modulo a two)
+          | [a; b] -> (a, b)
+          | _ -> failwith "case syntax: withdrawal identity") in
         let c = n_of_string (next ()) in
-        { w_script = (sc = "1"); w_acct = acct; w_coin = c })) in
+        { w_script = (sc = "1"); w_acct = acct; w_net = net; w_coin = c })) in
   expect "P";
   let props = match count () with None -> None | Some n -> Some (rep n (fun i ->
         let (d, ids) = split_ids (next ()) in
@@ -59,6 +64,8 @@ let parse_case (toks : string list) : icase =
   let outs = (match count () with Some n -> rep n (fun _ -> n_of_string (next ())) | None -> []) in
   expect "D";
   let don = optn () in
+  (* an optional history section "H n op*" follows: setters replace (Deposits/History.v, C20_history_is_overwritten), so the
+     observation of the case does not depend on it *)
   { ik_pool_deposit = pool; ik_key_deposit = key; ik_certs = certs; ik_withdrawals = wdrl; ik_proposals = props;
     ik_inputs = ins; ik_outputs = outs; ik_donation = don }
 
